@@ -2,6 +2,8 @@
 
 package desync
 
+import "os"
+
 // VerifHook is installed by the verification harness (build tag verif). It is called at every
 // verifYield point with the point's name and alternating key/value pairs describing the step that was
 // just taken; it may block, which makes every point a scheduler gate.
@@ -11,4 +13,58 @@ func verifYield(point string, kv ...interface{}) {
 	if h := VerifHook; h != nil {
 		h(point, kv...)
 	}
+}
+
+// VerifCanClone / VerifCloneRange let the harness install an in-process emulation of FICLONERANGE on a
+// filesystem without reflink support. nil: the real ioctl is used.
+var (
+	VerifCanClone   func(dstFile, srcFile string) bool
+	VerifCloneRange func(dst, src *os.File, srcOffset, srcLength, dstOffset uint64) error
+)
+
+// verifPlan reports a plan as a list of segments [first, last, kind, source start] with kind 0 = no source,
+// 1 = null-chunk seed, 2 = file seed (source file name in "files").
+func verifPlan(attempt int, plan Plan) {
+	if VerifHook == nil {
+		return
+	}
+	segs := make([][]uint64, 0, len(plan))
+	files := make([]string, 0, len(plan))
+	for _, c := range plan {
+		kind, start, name := uint64(0), uint64(0), ""
+		switch src := c.source.(type) {
+		case *fileSeedSegment:
+			kind, name = 2, src.file
+			if len(src.chunks) > 0 {
+				start = src.chunks[0].Start
+			}
+		case *nullChunkSection:
+			kind = 1
+		}
+		segs = append(segs, []uint64{uint64(c.indexSegment.first), uint64(c.indexSegment.last), kind, start})
+		files = append(files, name)
+	}
+	VerifHook("asm.plan", "attempt", attempt, "segs", segs, "files", files)
+}
+
+// verifSeedIndex reports the index of a file seed after it was regenerated.
+func verifSeedIndex(s *FileSeed) {
+	if VerifHook == nil {
+		return
+	}
+	ids := make([]ChunkID, len(s.index.Chunks))
+	starts := make([]uint64, len(s.index.Chunks))
+	for i, c := range s.index.Chunks {
+		ids[i], starts[i] = c.ID, c.Start
+	}
+	VerifHook("fs.regen", "file", s.srcFile, "ids", ids, "starts", starts)
+}
+
+// Exported shims for unexported units the harness drives directly.
+func VerifNewNullChunkSeed(dstFile string, blocksize, max uint64) (Seed, func() error, error) {
+	s, err := newNullChunkSeed(dstFile, blocksize, max)
+	if err != nil {
+		return nil, nil, err
+	}
+	return s, s.close, nil
 }
